@@ -93,6 +93,31 @@ class FakeRedis:
             return True
         return False
 
+    def append(self, k, v):
+        self._cmd('APPEND', k)
+        k = _b(k)
+        self.server.d[k] = self.server.d.get(k, b'') + (_b(v) if not isinstance(v, bytes) else v)
+        return len(self.server.d[k])
+
+    def scan(self, cursor=0, match=None, count=None):
+        """like the server: at most `count` (default 10) keys per call and a cursor to continue with"""
+        self._cmd('SCAN', match or '*')
+        ks = sorted(self.server.d)
+        n = count or 10
+        chunk = ks[cursor:cursor + n]
+        nxt = cursor + n if cursor + n < len(ks) else 0
+        pat = _b(match or '*').decode('latin1')
+        return nxt, [k for k in chunk if fnmatch.fnmatchcase(k.decode('latin1'), pat)]
+
+    def scan_iter(self, match=None, count=None):
+        cur = 0
+        while True:
+            cur, ks = self.scan(cur, match, count)
+            for k in ks:
+                yield k
+            if cur == 0:
+                return
+
     def setex(self, k, secs, v):
         return self.set(k, v, ex=secs)
 
